@@ -12,7 +12,7 @@
 EXTENDS MonCommon
 
 Empty == [ chunks |-> {}, recvOn |-> {}, rets |-> <<>>, hookA |-> <<>>, close |-> <<>>, resumed |-> 0, closedErr |-> FALSE,
-           reads |-> <<>>, acked |-> {} ]
+           reads |-> <<>>, acked |-> {}, states |-> <<>> ]
 MonInit == [ role |-> "solo", psid |-> "", pobj |-> "P", proj |-> Empty, solo |-> Empty, haveSolo |-> FALSE, sentAcks |-> <<>>, sentChunks |-> {} ]
 MonResetM(m, e) == IF e.p.role = "solo" THEN [MonInit EXCEPT !.role = "solo"]
                    ELSE [MonInit EXCEPT !.role = "with", !.solo = m.proj, !.haveSolo = (m.role = "solo")]
@@ -36,6 +36,8 @@ MonStep(m, e) ==
       [] e.ev \in {"UpResumed", "DownResumed"} /\ m.psid # "" /\ e.sid = m.psid -> [m EXCEPT !.proj.resumed = @ + 1]
       [] e.ev \in {"UpClosed", "DownClosed"} /\ e.obj = m.pobj -> [m EXCEPT !.proj.closedErr = @ \/ e.err # ""]
       [] e.ev = "BSendChunk" /\ m.psid # "" /\ e.sid = m.psid -> [m EXCEPT !.sentChunks = @ \cup {<<e.up, e.seq>>}]
+      \* State() samples of P taken by the script at quiet moments: what is still buffered, what was cut so far
+      [] e.ev = "State" /\ e.obj = m.pobj -> [m EXCEPT !.proj.states = Append(@, <<e.bufN, e.total, e.lastSeq>>)]
       [] e.ev = "BRecvDownAck" /\ m.psid # "" /\ e.sid = m.psid ->
             [m EXCEPT !.proj.acked = @ \cup { <<e.results[k][1], e.results[k][2]>> : k \in 1..Len(e.results) }]
       [] OTHER -> m
@@ -51,6 +53,7 @@ HookDiffer(m) == ~SameBag(m.proj.hookA, m.solo.hookA)
 LifecycleDiffer(m) == Norm(m.proj).resumed # Norm(m.solo).resumed \/ Norm(m.proj).closedErr # Norm(m.solo).closedErr \/ Norm(m.proj).close # Norm(m.solo).close
 ReadsDiffer(m) == Norm(m.proj).reads # Norm(m.solo).reads
 AcksDiffer(m) == Norm(m.proj).acked # Norm(m.solo).acked
+StatesDiffer(m) == m.proj.states # m.solo.states
 \* direct: P's ack hook reports only results the broker addressed to P; P reads only chunks sent to P
 ForeignAckAtP(m) == ~BagIncl(m.proj.hookA, m.sentAcks)
 ForeignChunkAtP(m) == \E r \in RangeS(m.proj.reads) : r[1] = "" /\ <<r[3], r[2]>> \notin m.sentChunks
@@ -61,7 +64,7 @@ MonVerdict(m) ==
     \cup (IF m.role = "with" /\ m.haveSolo
           THEN Clause("ChunksDiffer", ChunksDiffer(m)) \cup Clause("RetransDiffer", RetransDiffer(m)) \cup Clause("ReturnsDiffer", ReturnsDiffer(m))
                \cup Clause("HookDiffer", HookDiffer(m)) \cup Clause("LifecycleDiffer", LifecycleDiffer(m))
-               \cup Clause("ReadsDiffer", ReadsDiffer(m)) \cup Clause("AcksDiffer", AcksDiffer(m))
+               \cup Clause("ReadsDiffer", ReadsDiffer(m)) \cup Clause("AcksDiffer", AcksDiffer(m)) \cup Clause("StatesDiffer", StatesDiffer(m))
           ELSE {})
 MonStats(m) == [ pairs |-> IF m.role = "with" /\ m.haveSolo THEN 1 ELSE 0, chunks |-> Cardinality(m.proj.chunks), retrans |-> Cardinality(Retrans(m.proj)),
                  reads |-> Len(m.proj.reads), resumed |-> m.proj.resumed ]
